@@ -89,6 +89,7 @@ DC_VARIANTS = {
     "privcvar": ["a: typing.Any", "_p: int = 5", "CV: typing.ClassVar[int] = 7", "b: typing.Any = 2"],
     "barecvar": ["a: typing.Any", "CV: typing.ClassVar = 7", "b: typing.Any = 2"],  # unsubscripted ClassVar
     "allpriv": ["_p: typing.Any", "_q: typing.Any = 2"],
+    "noinit": ["a: typing.Any", "b: typing.Any = 2", "t: int = dataclasses.field(init=False, default=9)"],  # a field the constructor does not take
 }
 AN_VARIANTS = {
     "plain": (["a: typing.Any", "b: typing.Any"], ["a", "b"]),
@@ -102,6 +103,7 @@ UN_FIELDS = {"plain": ["a", "b"], "priv": ["a", "_p", "b"], "allpriv": ["_p", "_
 UN_COMBOS = [("plain", "match"), ("plain", "empty"), ("plain", "subset"), ("plain", "renamed"), ("plain", "varargs"),
              ("priv", "match"), ("priv", "empty"), ("allpriv", "empty")]
 
+HIERARCHIES: list[tuple[str, str]] = []  # (base class, child class adding a field)
 CLASSES: list[str] = []  # deterministic order
 FLAVOUR: dict[str, str] = {}  # class name -> signature class kind
 DETAIL: dict[str, str] = {}  # class name -> fine flavour (coverage)
@@ -202,11 +204,15 @@ def _universe_src() -> str:
             if not deco:
                 if f == "a":
                     L += ["    def __init__(self, a):", "        self.a = a"]
+                    L.append(f"    def __repr__(self):\n        return '%s(a=%r)' % (type(self).__name__, self.a)")
                 else:
                     L += ["    def __init__(self, a, b):", "        super().__init__(a)", "        self.b = b"]
                     L.append(f"    def __repr__(self):\n        return '{cname}(a=%r, b=%r)' % (self.a, self.b)")
         L.append(f"MAKE[{name!r}] = lambda a, b: {name}(a, b)")
         _reg(name, flav, flav, "inherited-field")
+        L.append(f"MAKE[{name + '_base'!r}] = lambda a, b: {name}_base(a)")
+        _reg(name + "_base", flav, flav, "base-of-hierarchy")
+        HIERARCHIES.append((name + "_base", name))
     # ---- named tuples of 1, 2 and 3 fields
     L += [
         "class NT1(typing.NamedTuple):", "    a: typing.Any",
@@ -310,6 +316,14 @@ def sequences(tier):
         ds = [d for d in _obj_descs(B["cache_obj_kinds"]) if d[1] == name]
         out += pairs(ds, ds)
     g["cache:structured"] = out
+    # a base class and the child that adds a field, in both orders: what is memoised for one class must not leak into the other
+    out = []
+    for base, child in HIERARCHIES:
+        db = [d for d in _obj_descs(B["cache_obj_kinds"]) if d[1] == base]
+        dc = [d for d in _obj_descs(B["cache_obj_kinds"]) if d[1] == child]
+        out += [("two", a, fa, b, fb) for a in dc[:2] for b in db[:2] for fa, fb in fnpairs]
+        out += [("two", a, fa, b, fb) for a in db[:2] for b in dc[:2] for fa, fb in fnpairs]
+    g["cache:related-classes"] = out
     out = []
     for c in SET_CARRIERS:
         out += pairs([("seq", c, ks) for ks in _set_contents(B["cacheA_max"])], [("seq", c, ks) for ks in _set_contents(B["cacheB_max"])])
